@@ -190,7 +190,12 @@ pub struct GetOp { pub rp: String, pub cdh: Vec<u8>, pub allow: Option<Vec<Vec<u
 /// ids of a descriptor list; an entry typed `Unknown` (index in `unk`) is prefixed with `u`
 fn ids_s(l: &Option<Vec<Vec<u8>>>, unk: &[usize]) -> String { match l { None => "N".into(), Some(v) if v.is_empty() => "E".into(), Some(v) => v.iter().enumerate().map(|(k, i)| format!("{}{}", if unk.contains(&k) { "u" } else { "" }, hexf(i))).collect::<Vec<_>>().join(",") } }
 fn descs(l: &Option<Vec<Vec<u8>>>, unk: &[usize]) -> Option<Vec<PublicKeyCredentialDescriptor>> {
-    l.as_ref().map(|v| v.iter().enumerate().map(|(k, i)| PublicKeyCredentialDescriptor { ty: if unk.contains(&k) { PublicKeyCredentialType::Unknown } else { PublicKeyCredentialType::PublicKey }, id: i.clone().into(), transports: None }).collect())
+    l.as_ref().map(|v| v.iter().enumerate().map(|(k, i)| PublicKeyCredentialDescriptor { ty: if unk.contains(&k) { PublicKeyCredentialType::Unknown } else { PublicKeyCredentialType::PublicKey }, id: i.clone().into(), transports: dont_care_transports(i) }).collect())
+}
+/// members the authenticator does not look at, varied deterministically with the credential id: none, empty, one, several hints
+pub fn dont_care_transports(id: &[u8]) -> Option<Vec<webauthn::AuthenticatorTransport>> {
+    use webauthn::AuthenticatorTransport as T;
+    match id.iter().fold(0u8, |a, b| a.wrapping_add(*b)) % 6 { 0 | 1 => None, 2 => Some(vec![]), 3 => Some(vec![T::Usb]), 4 => Some(vec![T::Internal, T::Hybrid]), _ => Some(vec![T::Nfc, T::Ble, T::Usb]) }
 }
 fn alg_of(a: i64) -> iana::Algorithm { use coset::iana::EnumI64; iana::Algorithm::from_i64(a).unwrap_or(iana::Algorithm::RS256) }
 pub fn faults_pub(f: &[Option<u8>]) -> String { faults_s(f) }
@@ -210,7 +215,7 @@ impl MakeOp {
     fn real(&self, ctx_hmac_input: Option<passkey_types::ctap2::extensions::HmacGetSecretInput>) -> make_credential::Request {
         make_credential::Request {
             client_data_hash: self.cdh.clone().into(),
-            rp: make_credential::PublicKeyCredentialRpEntity { id: self.rp.clone(), name: Some("rp".into()) },
+            rp: make_credential::PublicKeyCredentialRpEntity { id: self.rp.clone(), name: match self.cdh.first().copied().unwrap_or(0) % 3 { 0 => None, 1 => Some("rp".into()), _ => Some(format!("R\u{e9}lying \u{1f600} {}", "p".repeat(70))) } },
             // account names of ordinary and of unusual length (beyond 64 bytes, multi-byte characters), derived from the user id
             user: webauthn::PublicKeyCredentialUserEntity { id: self.user.clone().into(),
                 display_name: if self.user.len() % 3 == 0 { "d".into() } else { format!("D\u{e9}{}", "\u{20ac}".repeat(20 + self.user.len())) },
@@ -219,7 +224,8 @@ impl MakeOp {
             exclude_list: descs(&self.exclude, &self.unk),
             extensions: self.ext.as_ref().map(|(hs, mc, prf)| make_credential::ExtensionInputs { hmac_secret: *hs, hmac_secret_mc: if *mc { ctx_hmac_input.clone() } else { None }, prf: prf.as_ref().map(prfi_real) }),
             options: make_credential::Options { rk: self.rk, up: self.up, uv: self.uv },
-            pin_auth: if self.pin { Some(vec![1u8; 16].into()) } else { None }, pin_protocol: None,
+            // a pin protocol number without pinAuth is not looked at
+            pin_auth: if self.pin { Some(vec![1u8; 16].into()) } else { None }, pin_protocol: match self.cdh.last().copied().unwrap_or(0) % 3 { 0 => None, 1 => Some(1), _ => Some(2) },
         }
     }
 }
@@ -233,7 +239,7 @@ impl GetOp {
         get_assertion::Request { rp_id: self.rp.clone(), client_data_hash: self.cdh.clone().into(), allow_list: descs(&self.allow, &self.unk),
             extensions: self.ext.as_ref().map(|(hs, prf)| get_assertion::ExtensionInputs { hmac_secret: if *hs { hi.clone() } else { None }, prf: prf.as_ref().map(prfi_real) }),
             options: make_credential::Options { rk: self.rk, up: self.up, uv: self.uv },
-            pin_auth: if self.pin { Some(vec![1u8; 16].into()) } else { None }, pin_protocol: None }
+            pin_auth: if self.pin { Some(vec![1u8; 16].into()) } else { None }, pin_protocol: match self.cdh.last().copied().unwrap_or(0) % 3 { 0 => None, 1 => Some(1), _ => Some(2) } }
     }
 }
 fn hmac_input() -> passkey_types::ctap2::extensions::HmacGetSecretInput {
